@@ -242,6 +242,58 @@ func (ev *lexEv) call(call *ast.CallExpr, env map[types.Object]lexVal) {
 // ctor classifies one rule-valued expression.
 func (ev *lexEv) ctor(e ast.Expr, env map[types.Object]lexVal) {
 	c := ev.c
+	if id, isID := unparen(e).(*ast.Ident); isID {
+		// a rule held in a variable: its one definition, or the two definitions of the routing written out
+		// (`if oper.IsIdentOp(..) { r = keyword(k) } else { r = str(k) }`, e.g. a routing helper after inlining)
+		o := c.objOf(id)
+		var defs []*ast.AssignStmt
+		var rhs []ast.Expr
+		ast.Inspect(ev.nl.Body, func(x ast.Node) bool {
+			if as, ok := x.(*ast.AssignStmt); ok && len(as.Lhs) == len(as.Rhs) {
+				for i, l := range as.Lhs {
+					if c.objOf(l) == o && o != nil {
+						defs = append(defs, as)
+						rhs = append(rhs, as.Rhs[i])
+					}
+				}
+			}
+			return true
+		})
+		switch len(defs) {
+		case 1:
+			ev.ctor(rhs[0], env)
+			return
+		case 2:
+			g := c.buildCFG(ev.nl.Body)
+			var kw *ast.CallExpr
+			okRoute := true
+			for i, as := range defs {
+				ce, isCall := unparen(rhs[i]).(*ast.CallExpr)
+				if !isCall {
+					okRoute = false
+					break
+				}
+				pol, found := ev.identOpPolarity(g, as)
+				switch c.calleeName(ce) {
+				case "parser/lexer.keyword":
+					kw = ce
+					okRoute = okRoute && found && pol
+				case "parser/lexer.str":
+					okRoute = okRoute && found && !pol
+				default:
+					okRoute = false
+				}
+			}
+			if okRoute && kw != nil && len(kw.Args) == 1 {
+				r := lexReg{call: kw, ctor: "addOper"}
+				r.kind, r.seq = ev.kindOf(kw.Args[0], env)
+				ev.regs = append(ev.regs, r)
+				return
+			}
+		}
+		ev.badf(e, "a rule held in a variable whose definitions the evaluator cannot read")
+		return
+	}
 	ce, ok := unparen(e).(*ast.CallExpr)
 	if !ok {
 		ev.badf(e, "a rule that is not a constructor call")
